@@ -51,6 +51,23 @@ def run(tier):
     mc.append({'name': 'deviation KF_EarlyAck: TLC must find the early acknowledgement', 'module': 'EdgeHandoff',
                'cfg': flow.write_cfg(wd, 'eh_kf2.cfg', EH_CFG % (2, 'FALSE', 'FALSE', 'TRUE')),
                'expect_violation': ['C02_AckImpliesAllStored', 'C02_NoEarlyAck', 'C02_FailureIsReported']})
+    EC_CFG = """SPECIFICATION Spec
+CONSTANTS
+  NClients = %d
+  NRcpt = 3
+  KF_SharedPolicyResults = %s
+  KF_LastResultWins = %s
+INVARIANT C02_AckImpliesAllStored
+INVARIANT C02_FailureIsReported
+CHECK_DEADLOCK FALSE
+"""
+    mc.append({'name': 'EdgeClients: three clients handing off at the same time, every per-recipient proxy result', 'module': 'EdgeClients',
+               'cfg': flow.write_cfg(wd, 'ec.cfg', EC_CFG % (3, 'FALSE', 'FALSE'))})
+    mc.append({'name': 'deviation KF_SharedPolicyResults (seeded change C02b-m1): TLC must find the client acknowledged for another one\'s message',
+               'module': 'EdgeClients', 'cfg': flow.write_cfg(wd, 'ec_kf1.cfg', EC_CFG % (2, 'TRUE', 'FALSE')), 'expect_violation': ['C02_AckImpliesAllStored']})
+    mc.append({'name': 'deviation KF_LastResultWins (seeded change C02b-m2): TLC must find the forgotten transient failure',
+               'module': 'EdgeClients', 'cfg': flow.write_cfg(wd, 'ec_kf2.cfg', EC_CFG % (2, 'FALSE', 'TRUE')),
+               'expect_violation': ['C02_AckImpliesAllStored', 'C02_FailureIsReported']})
     return flow.standard(
         'C02', tier, mc, 'c02', 'Trace_Edge', 'Trace_Edge.cfg', [canary_ack, canary_early],
         level='model_checking',
